@@ -9,6 +9,17 @@ pub struct C05;
 
 type Rdr<'a> = EndianSlice<'a, RunTimeEndian>;
 
+fn show_cie_or_fde<'b, S, R>(e: &CieOrFde<'b, S, R>) -> String
+where
+    R: gimli::Reader<Offset = usize>,
+    S: UnwindSection<R>,
+{
+    match e {
+        CieOrFde::Cie(c) => format!("cie@{}", c.offset()),
+        CieOrFde::Fde(p) => format!("fde@{}", p.offset()),
+    }
+}
+
 #[derive(Clone, Debug, Default)]
 pub struct Bases {
     pub eh_frame: Option<u64>,
@@ -19,18 +30,32 @@ pub struct Bases {
 
 impl Bases {
     fn to_gimli(&self) -> BaseAddresses {
+        // the four setters are independent: the order of the calls (chosen from the values) must not matter
         let mut b = BaseAddresses::default();
-        if let Some(a) = self.eh_frame {
-            b = b.set_eh_frame(a);
-        }
-        if let Some(a) = self.text {
-            b = b.set_text(a);
-        }
-        if let Some(a) = self.data {
-            b = b.set_got(a);
-        }
-        if let Some(a) = self.hdr {
-            b = b.set_eh_frame_hdr(a);
+        let k = (self.eh_frame.unwrap_or(1) ^ self.text.unwrap_or(2) >> 3 ^ self.data.unwrap_or(3) >> 5 ^ self.hdr.unwrap_or(4) >> 2) as usize;
+        for i in 0..4 {
+            match (i + k) % 4 {
+                0 => {
+                    if let Some(a) = self.eh_frame {
+                        b = b.set_eh_frame(a);
+                    }
+                }
+                1 => {
+                    if let Some(a) = self.text {
+                        b = b.set_text(a);
+                    }
+                }
+                2 => {
+                    if let Some(a) = self.hdr {
+                        b = b.set_eh_frame_hdr(a);
+                    }
+                }
+                _ => {
+                    if let Some(a) = self.data {
+                        b = b.set_got(a);
+                    }
+                }
+            }
         }
         b
     }
@@ -357,6 +382,7 @@ fn check_frame(c: &FrameCase, cx: &mut Ctx) -> R {
         ($s:expr, $off:expr) => {{
             let s = $s;
             let mut it = s.entries(&bases);
+            crate::std_iter_agrees!(s.entries(&bases), show_cie_or_fde, "c05/entries/std-iterator");
             for (k, (is_cie, idx)) in built.order.iter().enumerate() {
                 let e = it.next();
                 if *is_cie {
